@@ -12,7 +12,7 @@ Tie to the code:
  * structural: the Lean optimiser model applied to the implementation's UNOPTIMISED IR equals (canonically) the
    implementation's OPTIMISED IR; the side conditions of the soundness theorem (`forwardOK`) hold on that IR."""
 import copy
-import common, implrun, progfam, proglib, wholelang, gen_calls, p_c14
+import common, implrun, progfam, proglib, wholelang, gen_calls, gen_vec, p_c14
 
 RULE = ("generated scalar-core programs (incl. a stratum dense in store/load pairs: x = e; use of x; chained, compound and affix "
         "assignments), call programs with vector parameters, multi-VM histories, the whole-language corpus and the test-suite sources; "
@@ -115,7 +115,8 @@ def explore(run, scale=1):
     spec = [(n * 4 // 10, None, None),
             (n * 2 // 10, dict(max_stmts=7, max_depth=2, arrays=False), None),        # dense in store/load pairs
             (n * 2 // 10, None, "calls"),
-            (n * 2 // 10, None, "history")]
+            (n * 2 // 10, None, "history"),
+            (n * 2 // 10, None, "vec")]                                               # vectors/matrices: swizzle, shuffle, construct after stores
     for rec in progfam.evaluate(run, "C02", spec, want=("opt", "optstruct")):
         judge_prog(run, rec)
 
